@@ -181,6 +181,8 @@ def refRootsX (c : RefCfg) (sorted : Bool) (l : List (List (List XP))) :
 def refRunX (follow : Follow) (roots : List (Bytes × Option (Node Attr))) (args : List Arg) (script : List Nat) :
     Option (RefRes × List ExecEvent) :=
   let c := args.foldl applyArg { follow := follow }
+  -- -xdev: a directory on another device than its starting point is reported, not descended into
+  let roots := if c.xdev then roots.map (fun r => (r.1, r.2.map (cutRoot c.follow))) else roots
   match parseExpr (args.map Arg.tok') with
   | none => none
   | some l =>
